@@ -27,7 +27,7 @@ POOL = [
     "y ~ (x|g) + (x|h)", "y ~ x + (bs(x, df=3)|g)", "y ~ f + (f|g) + (x|h)", "y ~ 0 + C(k) + (1|g/h)", "y ~ (1|h) + (f*x|g)",
     "yc ~ 0 + x + (0 + x|g)", "(x|g)", "x + f + (x|g)", "y ~ 0 + (x|g)", "0 + (f|g)", "y ~ (0 + f|g + h) + (1|g)", "y ~ x + (f|g + h) - (1|h)", "y ~ (0 + f:x|g/h) + (1|g)", "y ~ 0 + bs(x, df=4)", "y ~ 0 + bs(x, df=4):f", "y ~ f + poly(x, 3) + (0 + bs(x, df=4)|g)", "y ~ one + x + f", "y ~ x + one + (1|g) + (0 + x|g)", "y ~ x + offset(s) + f", "y ~ offset(2.5) + (1|g)", "y ~ C(fl) + x", "y ~ x + (1|C(fl))", "ylong ~ x + flong", "ylong ~ 0 + x + (flong|g)",  # 'one' has a single level: a term without columns
 ]
-FRAMES = ["sub", "rev", "newg", "newh", "newgh", "one"]
+FRAMES = ["sub", "rev", "newg", "newh", "newgh", "one", "long"]
 FRAMES_T = FRAMES + ["dup"]
 _DF = None
 
@@ -78,6 +78,8 @@ def new_frame(kind):
         return df.iloc[[13]].reset_index(drop=True)
     if kind == "dup":
         return df.iloc[[2, 2, 2, 8, 8]].reset_index(drop=True)
+    if kind == "long":  # 1500 rows: more than 1024, and not a multiple of it
+        return pd.concat([df] * 42, ignore_index=True).iloc[:1500]
     nd = df.iloc[[0, 5, 11, 20]].reset_index(drop=True).copy()
     if kind in ("newg", "newgh"):
         g = nd["g"].astype(object)
@@ -240,7 +242,7 @@ def check_case(case, acc):
                     problems.append(("printing", f"{fn.__name__}(design): the {label!r} line {lines} does not report the shape {np.asarray(M.design_matrix).shape}"))
         has_groups = dm.group is not None
         thorough = case.get("tier") == "thorough"
-        frames_here = (FRAMES_T if thorough else FRAMES) if has_groups else (["sub", "rev", "one", "dup"] if thorough else ["sub", "rev", "one"])
+        frames_here = (FRAMES_T if thorough else FRAMES) if has_groups else (["sub", "rev", "one", "dup", "long"] if thorough else ["sub", "rev", "one", "long"])
         direct = {}
         nstates = 0
         for kind, root in roots:
@@ -280,7 +282,7 @@ def check_case(case, acc):
                         elif key in direct and not same(direct[key], snap):
                             problems.append(("reached-from-elsewhere", f"{what} differs from {kind} via {fk} alone (matrix, slices or factors_with_new_levels)"))
                         if kind == "group":
-                            expf = {"sub": (), "rev": (), "one": (), "dup": (), "newg": "g", "newh": "h", "newgh": "gh"}[fk]
+                            expf = {"sub": (), "rev": (), "one": (), "dup": (), "newg": "g", "newh": "h", "newgh": "gh", "long": ()}[fk]
                             got = child.factors_with_new_levels
                             facs = [t.factor.name for t in child.terms.values()]
                             want = tuple(dict.fromkeys(f_ for f_ in facs if any(c in f_.split(":") for c in expf)))
@@ -329,6 +331,12 @@ def check_case(case, acc):
                 tmp = []
                 check_object(kind, root, len(df), f"root {kind} after the same formula was built on another frame", tmp)
                 problems.extend([("earlier-object-unchanged", m) for _, m in tmp[:1]])
+        # the same data 42 times over (1512 rows): one row per observation in every member
+        acc.calls += 1
+        dm4 = design_matrices(d, pd.concat([df] * 42, ignore_index=True))
+        for kind, M in (("response", dm4.response), ("common", dm4.common), ("group", dm4.group)):
+            if M is not None:
+                check_object(kind, M, 42 * len(df), f"{kind} of the 1512-row frame", problems)
         # the same data with repeated index labels and two incomplete rows: one row per retained observation, in every member
         dup = df.copy()
         dup.index = [i // 3 for i in range(len(dup))]
